@@ -881,6 +881,97 @@ impl zverif::Subject for ThreadExit {
     }
 }
 
+// ---------------------------------------------------------------------------------------------
+// LazyFreeList with more than one retired item, in ANY order of ages (push() does not sort: writers that buffer their
+// retirements hand them over late, so a younger item can sit in front of older ones): process_safe_items may free
+// less than it could, never more — nothing whose age is not below min_version, i.e. still visible to a live token.
+
+#[derive(Clone, Debug, Hash, serde::Serialize, serde::Deserialize)]
+pub struct LazyCase {
+    ages: Vec<u8>,
+    /// 0 = LazyFreeList::new() (default threshold), n = with_bulk_threshold(n)
+    threshold: u8,
+    min_version: u8,
+    /// call process_safe_items a second time with min_version + 1
+    twice: bool,
+}
+
+pub struct LazyQueues;
+
+impl zverif::enumr::EnumSpec for LazyQueues {
+    type Case = LazyCase;
+    fn name(&self) -> String {
+        "LazyFreeList[queues in any order]".to_string()
+    }
+    fn space(&self, tier: Tier) -> String {
+        format!(
+            "all sequences of <= {} pushed ages over {{1,2,3,5}} (sorted, unsorted, with duplicates) x LazyFreeList::new / with_bulk_threshold in {{1,2,3}} x min_version in 0..=6 x {{one call, a second call with min_version+1}}: every item handed to the callback has age < min_version, no item is handed over twice, freed + still queued = pushed (len()), the return value counts the callbacks, and at most bulk_threshold items per call",
+            if tier == Tier::Thorough { 6 } else { 5 }
+        )
+    }
+    fn cases(&self, tier: Tier, f: &mut dyn FnMut(LazyCase) -> bool) {
+        let n = if tier == Tier::Thorough { 6 } else { 5 };
+        let alpha = [1u8, 2, 3, 5];
+        let mut go = true;
+        zverif::util::all_strings(&alpha, n, &mut |ages| {
+            for threshold in 0..=3u8 {
+                for min_version in 0..=6u8 {
+                    for twice in [false, true] {
+                        if !f(LazyCase { ages: ages.to_vec(), threshold, min_version, twice }) {
+                            go = false;
+                            return false;
+                        }
+                    }
+                }
+            }
+            true
+        });
+        let _ = go;
+    }
+    fn run(&self, c: &LazyCase) -> zverif::Outcome {
+        let mut list = if c.threshold == 0 { LazyFreeList::new() } else { LazyFreeList::with_bulk_threshold(c.threshold as usize) };
+        for (i, &a) in c.ages.iter().enumerate() {
+            list.push(LazyFreeItem::new(a as u64, i as u32, 8));
+        }
+        let mut seen = vec![false; c.ages.len()];
+        let mut total = 0usize;
+        let rounds: Vec<u64> = if c.twice { vec![c.min_version as u64, c.min_version as u64 + 1] } else { vec![c.min_version as u64] };
+        for mv in rounds {
+            let mut freed: Vec<LazyFreeItem> = Vec::new();
+            let ret = list.process_safe_items(mv, |it| freed.push(it));
+            if ret != freed.len() {
+                return zverif::enumr::fail("reclaim", "return_value", format!("process_safe_items({mv}) returned {ret} but called the callback {} times", freed.len()));
+            }
+            if c.threshold > 0 && freed.len() > c.threshold as usize {
+                return zverif::enumr::fail("reclaim", "more_than_bulk_threshold", format!("process_safe_items({mv}) freed {} items with bulk_threshold {}", freed.len(), c.threshold));
+            }
+            for it in &freed {
+                let i = it.memory_offset as usize;
+                if i >= seen.len() || it.age != c.ages[i] as u64 {
+                    return zverif::enumr::fail("reclaim", "unknown_item", format!("the callback received {it:?}, which was never pushed (ages {:?})", c.ages));
+                }
+                if it.age >= mv {
+                    return zverif::enumr::fail("reclaim", "freed_while_visible", format!("queue ages {:?}: process_safe_items({mv}) handed {it:?} to the free callback although its age is not below {mv} (a token of that version can still see it)", c.ages));
+                }
+                if seen[i] {
+                    return zverif::enumr::fail("reclaim", "freed_twice", format!("item #{i} (age {}) was handed to the callback twice", it.age));
+                }
+                seen[i] = true;
+            }
+            total += freed.len();
+            if list.len() + total != c.ages.len() {
+                return zverif::enumr::fail("reclaim", "items_lost", format!("{} pushed, {total} freed, {} still queued", c.ages.len(), list.len()));
+            }
+        }
+        let sorted = c.ages.windows(2).all(|w| w[0] <= w[1]);
+        if c.ages.is_empty() {
+            zverif::Outcome::trivial("empty")
+        } else {
+            zverif::Outcome::pass(&format!("{}/{}", if sorted { "sorted" } else { "unsorted" }, if total == 0 { "none_freed" } else if total == c.ages.len() { "all_freed" } else { "some_freed" }))
+        }
+    }
+}
+
 fn main() {
     use Act::*;
     zverif::main_with("C16", |reg, _tier| {
@@ -975,6 +1066,7 @@ fn main() {
                 budget_thorough_ms: 15000,
             }));
         }
+        reg.add(zverif::enumr::Enum(LazyQueues));
         reg.add(ThreadExit { level: owmr, lname: "OneWriteMultiRead" });
         reg.add(ThreadExit { level: mwmr, lname: "MultiWriteMultiRead" });
         reg.add(Seq(SeqTokens { level: owmr, dq: 4, dt: 5 }));
